@@ -55,3 +55,34 @@ func vH_C16_last_segment_mark_audio() {
 	vAssert("C16.lastmark.audio-lmsg-iff-last", vHasBrand(so.seg.Styp, "lmsg") == isLast)
 	vReach("C16.lastmark.end")
 }
+
+// C16 (pacing instant): the sender waits for calcSegmentAvailabilityTime of the next segment. For every segment of an
+// asset with non-uniform segment durations (alternating 4 s / 8 s) and of the uniform 2 s asset, any start number and
+// start time, and offsets 0 / 500 / 1500 ms: the instant is availabilityStartTime + exact end of the looped segment
+// - offset (1 ms slack for the float arithmetic) - not start + nominal duration.
+func init() {
+	vHarnesses["vH_C16_availability_alt"] = vH_C16_availability_alt
+	vHarnesses["vH_C16_availability_2s"] = vH_C16_availability_2s
+}
+
+func vH_C16_availability_alt() { vC16Avail(vAsset_testpic_alt_seg_dur_stl(), "V300") }
+func vH_C16_availability_2s()  { vC16Avail(vAsset_testpic_2s(), "V300") }
+
+func vC16Avail(a *asset, repID string) {
+	rep := a.Reps[repID]
+	ts := rep.MediaTimescale
+	startNr := vInt("startNr", 0, 1<<16)
+	startS := vInt("startS", 0, 1<<31)
+	n := vInt("n", 0, 1<<24)
+	atoMS := [3]int{0, 500, 1500}[vConc(vInt("atoIdx", 0, 2))]
+	cfg := vCfg(startS, startNr, 60)
+	cfg.AvailabilityTimeOffsetS = float64(atoMS) / 1000.0
+	got, err := calcSegmentAvailabilityTime(a, rep, uint32(startNr+n), cfg)
+	vAssert("C16.avail.ok", err == nil)
+	end := vSegEndTicks(a, rep, n)
+	// want = 1000*startS + 1000*end/ts - atoMS, compared in ticks*1000 to stay in integers
+	lhs := (int(got) - 1000*startS + atoMS) * ts
+	vAssert("C16.avail.not-before-segment-end-minus-offset-1ms", lhs+ts >= 1000*end)
+	vAssert("C16.avail.not-after-segment-end-minus-offset+1ms", lhs-ts <= 1000*end)
+	vReach("C16.avail.end")
+}
